@@ -10,9 +10,11 @@ import (
 	"bufio"
 	"encoding/json"
 	"fmt"
+	"math/rand"
 	"os"
 	"path/filepath"
 	"runtime"
+	"strconv"
 	"sync"
 	"testing"
 
@@ -43,6 +45,7 @@ type c06Case struct {
 type c06Call struct {
 	Off  int64  `json:"off"`
 	Data string `json:"data"`
+	Src  int    `json:"src,omitempty"`
 }
 
 type c06Rec struct {
@@ -52,9 +55,9 @@ type c06Rec struct {
 
 func (r *c06Rec) IncReadOps()                           {}
 func (r *c06Rec) IncMaxEventSizeExceeded(lvs ...string) {}
-func (r *c06Rec) In(_ pipeline.SourceID, _ string, off pipeline.Offsets, data []byte, _ bool, _ metadata.MetaData) uint64 {
+func (r *c06Rec) In(src pipeline.SourceID, _ string, off pipeline.Offsets, data []byte, _ bool, _ metadata.MetaData) uint64 {
 	r.mu.Lock()
-	r.calls = append(r.calls, c06Call{Off: c06Current(off), Data: string(data)}) // copy at call time
+	r.calls = append(r.calls, c06Call{Off: c06Current(off), Data: string(data), Src: int(src)}) // copy at call time
 	r.mu.Unlock()
 	return uint64(len(r.calls))
 }
@@ -174,6 +177,129 @@ func c06Run(dir string, id int, c *c06Case, jp *jobProvider, lg *zap.SugaredLogg
 	return nil
 }
 
+// c06Match compares the calls recorded for one job in one round with the specification's expectation
+func c06Match(c *c06Case, round int, calls []c06Call) (bool, []c06Call) {
+	want := make([]c06Call, 0, len(c.Exp[round]))
+	ok := len(calls) == len(c.Exp[round])
+	for i, e := range c.Exp[round] {
+		d := string(c06Bytes(e.Data))
+		want = append(want, c06Call{Off: e.Off, Data: d})
+		if !ok {
+			continue
+		}
+		g := calls[i]
+		if g.Off != e.Off {
+			ok = false
+		} else if !e.Over {
+			ok = g.Data == d
+		} else {
+			ok = len(g.Data) > c.M && g.Data[:c.M] == d[:c.M] && g.Data[len(g.Data)-1] == '\n'
+		}
+	}
+	return ok, want
+}
+
+// c06RunGroup: several files served by ONE worker goroutine, as in production (workers_count is usually far below the
+// number of files): in every round each file receives its append and is resumed, then one worker.work call serves all of
+// them in a seeded order.  The files are independent: each must see exactly the calls the specification expects for it alone.
+func c06RunGroup(dir string, id int, cs []*c06Case, order []int, jp *jobProvider, lg *zap.SugaredLogger) (mm *c06Mismatch) {
+	n := len(cs)
+	jobs := make([]*Job, n)
+	wfs := make([]*os.File, n)
+	paths := make([]string, n)
+	rounds := 0
+	for k, c := range cs {
+		paths[k] = filepath.Join(dir, fmt.Sprintf("g%d_%d.log", id, k))
+		wf, err := os.OpenFile(paths[k], os.O_CREATE|os.O_TRUNC|os.O_WRONLY|os.O_APPEND, 0o644)
+		if err != nil {
+			panic(err)
+		}
+		wfs[k] = wf
+		defer os.Remove(paths[k])
+		defer wf.Close()
+		if _, err = wf.Write(c06Bytes(c.Segs[0])); err != nil {
+			panic(err)
+		}
+		rf, err := os.Open(paths[k])
+		if err != nil {
+			panic(err)
+		}
+		defer rf.Close()
+		job := &Job{file: rf, filename: paths[k], sourceID: pipeline.SourceID(1000000 + id*8 + k), shouldSkip: *atomic.NewBool(c.Skip), mu: &sync.Mutex{}}
+		job.seek(c.Resume, 0, "verif resume")
+		jp.jobsMu.Lock()
+		jp.jobs[job.sourceID] = job
+		jp.jobsMu.Unlock()
+		jobs[k] = job
+		if len(c.Segs) > rounds {
+			rounds = len(c.Segs)
+		}
+	}
+	defer func() {
+		jp.jobsMu.Lock()
+		for _, job := range jobs {
+			delete(jp.jobs, job.sourceID)
+			if job.isDone {
+				jp.jobsDone.Dec()
+			}
+		}
+		jp.jobsMu.Unlock()
+	}()
+	w := &worker{maxEventSize: cs[0].M, cutOffEventByLimit: cs[0].Cut}
+	rec := &c06Rec{}
+	round := 0
+	defer func() {
+		if r := recover(); r != nil {
+			mm = &c06Mismatch{Kind: "panic", Case: *cs[0], Round: round, Panic: fmt.Sprint(r), Got: rec.calls, Extra: "several files on one worker"}
+		}
+	}()
+	for round = 0; round < rounds; round++ {
+		rec.calls = rec.calls[:0]
+		for _, k := range order {
+			if round >= len(cs[k].Segs) {
+				continue
+			}
+			if round > 0 {
+				if _, err := wfs[k].Write(c06Bytes(cs[k].Segs[round])); err != nil {
+					panic(err)
+				}
+				jobs[k].mu.Lock()
+				jp.tryResumeJobAndUnlock(jobs[k], paths[k])
+				<-jp.jobsChan
+			}
+		}
+		for _, k := range order {
+			if round < len(cs[k].Segs) {
+				jp.jobsChan <- jobs[k]
+			}
+		}
+		jp.jobsChan <- nil
+		w.work(rec, jp, cs[0].B, lg)
+		for k, c := range cs {
+			if round >= len(c.Segs) {
+				continue
+			}
+			mine := []c06Call{}
+			for _, g := range rec.calls {
+				if g.Src == int(jobs[k].sourceID) {
+					mine = append(mine, c06Call{Off: g.Off, Data: g.Data})
+				}
+			}
+			if ok, want := c06Match(c, round, mine); !ok {
+				others := []c06Case{}
+				for j, o := range cs {
+					if j != k {
+						others = append(others, *o)
+					}
+				}
+				return &c06Mismatch{Kind: "calls_differ_shared_worker", Case: *c, Round: round, Want: want, Got: mine,
+					Extra: map[string]interface{}{"served_with": others, "order": order, "index": k}}
+			}
+		}
+	}
+	return nil
+}
+
 func TestVerifC06(t *testing.T) {
 	in := os.Getenv("VERIF_CASES")
 	out := os.Getenv("VERIF_OUT")
@@ -234,7 +360,64 @@ func TestVerifC06(t *testing.T) {
 		}(wi)
 	}
 	wg.Wait()
-	res := map[string]interface{}{"executed": executed, "crossing": crossing, "mismatches": mms}
+	// several files on one worker: cases with the same worker configuration (read buffer, limit, cut) are grouped in twos and threes
+	groups := 0
+	byCfg := map[string][]*c06Case{}
+	keys := []string{}
+	for _, c := range cases {
+		k := fmt.Sprintf("%d/%d/%v", c.B, c.M, c.Cut)
+		if _, ok := byCfg[k]; !ok {
+			keys = append(keys, k)
+		}
+		byCfg[k] = append(byCfg[k], c)
+	}
+	type grp struct {
+		cs    []*c06Case
+		order []int
+	}
+	var gs []grp
+	maxGroups, _ := strconv.Atoi(os.Getenv("VERIF_C06_GROUPS"))
+	if maxGroups == 0 {
+		maxGroups = 20000
+	}
+	seed, _ := strconv.ParseInt(os.Getenv("VERIF_SEED"), 10, 64)
+	rng := rand.New(rand.NewSource(seed + 17))
+	for len(gs) < maxGroups {
+		k := keys[rng.Intn(len(keys))]
+		l := byCfg[k]
+		n := 2 + rng.Intn(2)
+		g := grp{}
+		for j := 0; j < n; j++ {
+			g.cs = append(g.cs, l[rng.Intn(len(l))])
+		}
+		g.order = rng.Perm(n)
+		gs = append(gs, g)
+	}
+	for wi := 0; wi < nw; wi++ {
+		wg.Add(1)
+		go func(wi int) {
+			defer wg.Done()
+			ctl := metric.NewCtl(fmt.Sprintf("verif_c06g_%d", wi), prometheus.NewRegistry(), 0, 0)
+			metrics := newMetricCollection(
+				ctl.RegisterCounter("w1", "h"), ctl.RegisterCounter("w2", "h"),
+				ctl.RegisterGauge("w3", "h"), ctl.RegisterGauge("w4", "h"),
+			)
+			lg := zap.NewNop().Sugar()
+			jp := NewJobProvider(&Config{}, metrics, lg)
+			jp.jobsChan = make(chan *Job, 8)
+			for i := wi; i < len(gs); i += nw {
+				mm := c06RunGroup(dir, i, gs[i].cs, gs[i].order, jp, lg)
+				mu.Lock()
+				groups++
+				if mm != nil && len(mms) < 50 {
+					mms = append(mms, mm)
+				}
+				mu.Unlock()
+			}
+		}(wi)
+	}
+	wg.Wait()
+	res := map[string]interface{}{"executed": executed, "crossing": crossing, "mismatches": mms, "groups": groups}
 	b, _ := json.Marshal(res)
 	if err := os.WriteFile(out, b, 0o644); err != nil {
 		t.Fatal(err)
